@@ -14,7 +14,7 @@ for d in seeded/*/; do
   # the check of the property the change was written against; if that one is known not to catch it, the checks that do
   props=$(python3 -c "import json;m=json.load(open('$d/meta.json'));t=m['breaks_property'];c=m.get('caught_by',[]);print(t if t in c else ' '.join([t]+c))")
   target=$(python3 -c "import json;print(json.load(open('$d/meta.json'))['breaks_property'])")
-  git -C /repo apply $d/patch.diff || { echo "$id: patch does not apply"; fail=1; continue; }
+  git -C /repo apply /verif/$d/patch.diff || { echo "$id: patch does not apply"; fail=1; continue; }
   : > $d/confirm.txt
   echo "# git -C /repo apply patch.diff (at /repo $(git -C /repo rev-parse --short HEAD), /verif $(git rev-parse --short HEAD)); ./check <ID> quick; git -C /repo checkout -- ." >> $d/confirm.txt
   for p in $props; do
